@@ -86,6 +86,10 @@ structure RingS where
 structure LineS where
   vertices : List Pos
 
+/-- a `GeoPoint` -/
+structure PointS where
+  coordinate : Pos
+
 /-- a member of a `MultiGeoPolygon`: `linear_rings(**kwargs)` is dispatched on its class -/
 structure PolyM where
   linearRings : Kw → Except String (List (List Pos))
@@ -100,7 +104,7 @@ structure MLineS where
   bounds : Except String (Rat × Rat × Rat × Rat)
 
 structure MPointS where
-  geoshapes : List Pos
+  geoshapes : List PointS
   bounds : Except String (Rat × Rat × Rat × Rat)
 
 /-- any shape, for `to_geojson` and the time fields: `dt`, `_properties`, and `to_geo_interface(**kwargs)` (dispatched
@@ -111,7 +115,17 @@ structure ShapeS where
   geoInterface : Kw → Except String Obj'''
 
 
-RECEIVERS = ('PolygonS', 'BoxS', 'CurvedS', 'RingS', 'LineS', 'PointS', 'MPolyS', 'MLineS', 'MPointS', 'ShapeS')
+PINS = {
+    # helpers whose meaning this unit assumes without translating them (py2lean.pin_of)
+    'structures.py::GeoLineString.bounds': '3b08d5f18e5fcc58',       # the vertex list's bounding box (`bboxPos`), C09's subject
+    'structures.py::GeoRing.bounds': '8203a28ab6dec734',             # enters as a field of the receiver
+    '_base.py::MultiShapeBase.bounds': '841b11fa2c70a0c3',           # enters as a field of the receiver
+    'utils/functions.py::sanitize_json': '4fe0b40e67ddbf69',          # the model's `sanitize rt` (recursion over a JSON value)
+    '_base.py::BaseShape.__init__': '9f9f957bce376782',              # a datetime `dt` becomes the instant interval
+    'structures.py::PolygonBase.__init__': 'e3b6c67c55a7b8b4',       # stores `holes`; GeoPolygon.__init__ adds `outline`
+}
+
+RECEIVERS = ('GjPolygon', 'GjBox', 'GjCurved', 'GjRing', 'GjLine', 'GjPoint', 'GjMPoly', 'GjMLine', 'GjMPoint', 'GjShape')
 
 
 def unit():
@@ -120,9 +134,11 @@ def unit():
     src = MultiSource([repo('structures.py'), repo('_geometry.py'), repo('_base.py'), repo('multistructures.py'),
                        repo('coordinates.py'), os.path.join(os.path.dirname(repo('x')), 'utils', 'functions.py')])
     B4 = 'Tuple4 R'
+    KW = ('kwargs', 'GjKw')
     RINGS = 'List List Pos'
     insts = [
         # --- ring orientation
+        Inst('Coordinate.__eq__', 'coordEq', [('self', 'Pos'), ('other', 'Pos')], 'Bool'),
         Inst('ensure_edge_bounds', 'ensureEdgeBounds', [('coord1', 'Pos'), ('coord2', 'Pos')], 'Prod Pos Pos'),
         Inst('is_counter_clockwise', 'isCounterClockwise', [('bounds', 'List Pos')], 'Except Bool'),
         Inst('GeoPolygon.__init__', 'polygonInit',
@@ -130,9 +146,55 @@ def unit():
               ('_is_hole', 'Bool')], 'Except List Pos', doc='the outline the constructor stores'),
         Inst('GeoPolygon.__init__', 'polygonInitDefault', [('self', 'None'), ('outline', 'List Pos')], 'Except List Pos',
              doc='`GeoPolygon(outline)`: the outline the constructor stores'),
+        # --- positions, rings
+        Inst('Coordinate.to_float', 'toFloat', [('self', 'Pos')], 'List R'),
+        Inst('GeoPolygon.bounding_coords', 'polygonBoundingCoords', [('self', 'GjPolygon')], 'List Pos', kw=KW),
+        Inst('GeoBox.bounding_coords', 'boxBoundingCoords', [('self', 'GjBox')], 'Except List Pos', kw=KW),
+        Inst('GeoRing.bounding_coords', 'ringBoundingCoords', [('self', 'GjRing')], 'Except List Pos', kw=KW),
+        Inst('PolygonBase.linear_rings', 'polygonLinearRings', [('self', 'GjPolygon')], 'Except ' + RINGS, kw=KW),
+        Inst('PolygonBase.linear_rings', 'boxLinearRings', [('self', 'GjBox')], 'Except ' + RINGS, kw=KW),
+        Inst('PolygonBase.linear_rings', 'curvedLinearRings', [('self', 'GjCurved')], 'Except ' + RINGS, kw=KW),
+        Inst('GeoRing.linear_rings', 'ringLinearRings', [('self', 'GjRing')], 'Except ' + RINGS, kw=KW),
+        Inst('MultiGeoPolygon.linear_rings', 'mpolyLinearRings', [('self', 'GjMPoly')], 'Except List ' + RINGS, kw=KW),
+        # --- bounds that are plain field reads
+        Inst('GeoBox.bounds', 'boxBounds', [('self', 'GjBox')], B4),
+        Inst('GeoPoint.bounds', 'pointBounds', [('self', 'GjPoint')], B4),
+        Inst('GeoPoint.centroid', 'pointCentroid', [('self', 'GjPoint')], 'Pos'),
+        # --- the geometry member
+        Inst('PolygonBase.to_geo_interface', 'polygonToGeoInterface', [('self', 'GjPolygon')], 'Except JObj', kw=KW),
+        Inst('PolygonBase.to_geo_interface', 'boxToGeoInterface', [('self', 'GjBox')], 'Except JObj', kw=KW),
+        Inst('PolygonBase.to_geo_interface', 'curvedToGeoInterface', [('self', 'GjCurved')], 'Except JObj', kw=KW),
+        Inst('PolygonBase.to_geo_interface', 'ringToGeoInterface', [('self', 'GjRing')], 'Except JObj', kw=KW),
+        Inst('GeoLineString.__geo_interface__', 'lineGeoInterface', [('self', 'GjLine')], 'JObj'),
+        Inst('GeoLineString.to_geo_interface', 'lineToGeoInterface', [('self', 'GjLine')], 'Except JObj', kw=KW),
+        Inst('GeoPoint.__geo_interface__', 'pointGeoInterface', [('self', 'GjPoint')], 'JObj'),
+        Inst('GeoPoint.to_geo_interface', 'pointToGeoInterface', [('self', 'GjPoint')], 'Except JObj', kw=KW),
+        Inst('MultiGeoLineString.__geo_interface__', 'mlineGeoInterface', [('self', 'GjMLine')], 'JObj'),
+        Inst('MultiGeoLineString.to_geo_interface', 'mlineToGeoInterface', [('self', 'GjMLine')], 'Except JObj', kw=KW),
+        Inst('MultiGeoPoint.__geo_interface__', 'mpointGeoInterface', [('self', 'GjMPoint')], 'JObj'),
+        Inst('MultiGeoPoint.to_geo_interface', 'mpointToGeoInterface', [('self', 'GjMPoint')], 'Except JObj', kw=KW),
+        Inst('MultiGeoPolygon.to_geo_interface', 'mpolyToGeoInterface', [('self', 'GjMPoly')], 'Except JObj', kw=KW),
+        # --- the Feature, its properties and the time fields
+        Inst('BaseShapeProtocol.start', 'startDt', [('self', 'GjShape')], 'Except Dt'),
+        Inst('BaseShapeProtocol.end', 'endDt', [('self', 'GjShape')], 'Except Dt'),
+        Inst('BaseShapeProtocol.properties', 'properties', [('self', 'GjShape')], 'Except JObj'),
+        Inst('BaseShapeProtocol._properties_json', 'propertiesJson', [('self', 'GjShape')], 'Except JObj'),
+        Inst('BaseShapeProtocol.to_geojson', 'toGeoJson', [('self', 'GjShape'), ('properties', 'Opt JObj')], 'Except JObj', kw=KW),
+        Inst('get_dt_from_geojson_props', 'getDtFromGeojsonProps',
+             [('rec', 'JObj'), ('time_start_field', 'Str'), ('time_end_field', 'Str'), ('time_format', 'None')],
+             'Except Prod (Opt TI) JObj', state=['rec'], doc='the result and `rec` after the call'),
     ]
+    METHODS = {}
+    for i in insts:
+        if i.params and i.params[0][0] == 'self' and i.params[0][1] != 'None':
+            METHODS[(i.params[0][1], i.qual.split('.')[-1])] = i
     for t, lt in (('Pos', 'GV.GeoJson.Pos'), ('HoleSrc', 'GV.GeoJson.HoleSrc'), ('J', 'GV.GeoJson.J'), ('JObj', 'GV.GeoJson.Obj'),
-                  ('Str', 'String'), ('KwT', 'Kw'), ('Nat', 'Nat'), ('PointS', 'GV.GeoJson.Pos')):
+                  ('Str', 'String'), ('GjKw', 'Kw'), ('Nat', 'Nat')):
+        py2lean.LEAN_TYPE.setdefault(t, lt)
+    # the receiver records are declared in the generated file's header
+    for t, lt in (('GjPolygon', 'PolygonS'), ('GjBox', 'BoxS'), ('GjCurved', 'CurvedS'), ('GjRing', 'RingS'), ('GjLine', 'LineS'),
+                  ('GjPoint', 'PointS'), ('GjMPoly', 'MPolyS'), ('GjMLine', 'MLineS'), ('GjMPoint', 'MPointS'), ('GjShape', 'ShapeS'),
+                  ('GjPolyM', 'PolyM')):
         py2lean.LEAN_TYPE.setdefault(t, lt)
 
     # ---- values as JSON values ---------------------------------------------------------------------------
@@ -163,8 +225,8 @@ def unit():
 
     # ---- hooks ------------------------------------------------------------------------------------------
     def eq_hook(tr, a, b):
-        if a.typ == b.typ and a.typ in ('Pos', 'Str'):
-            return Val(f'({a.text} == {b.text})', 'Bool')       # `Coordinate.__eq__` compares longitude, latitude and z
+        if a.typ == b.typ and a.typ in ('Str', 'Opt R'):
+            return Val(f'({a.text} == {b.text})', 'Bool')
         return None
 
     def truth_hook(tr, v):
@@ -177,6 +239,12 @@ def unit():
     def coerce_hook(tr, v, want):
         if v.typ.startswith('Pair ') and want == f'Prod {v.typ[5:]} {v.typ[5:]}':
             return v.text
+        if want == 'Opt TI' and v.typ == 'Dt':
+            # a datetime handed on as a shape's `dt` is the instant interval (`BaseShape.__init__`, pinned)
+            return f'some ⟨{v.text}, {v.text}⟩'
+        if want == 'Opt TI' and v.typ == 'Opt Dt':
+            x = tr.gensym('x')
+            return f'(({v.text}).map (fun {x} => (⟨{x}, {x}⟩ : GV.TI)))'
         return None
 
     def expr_stmt(tr, e):
@@ -189,14 +257,6 @@ def unit():
                     and not e.args and all(k.arg in ('holes', 'dt', 'properties') and isinstance(k.value, ast.Name) and k.value.id == k.arg
                                            for k in e.keywords):
                 return True
-        return False
-
-    def keywords_hook(tr, e):
-        f = e.func
-        if isinstance(f, ast.Name) and f.id == 'Coordinate':
-            return True
-        if isinstance(f, ast.Attribute) and f.attr == '__init__':
-            return True
         return False
 
     def call_hook(tr, e):
@@ -219,7 +279,139 @@ def unit():
                 return Val(f'(GV.GeoJson.Pos.mk {args[0].text} {args[1].text} {z})', 'Pos')
             ll = f'(GV.normalize true {args[0].text} {args[1].text})'
             return Val(f'(GV.GeoJson.Pos.mk {ll}.1 {ll}.2 {z})', 'Pos')
+        if isinstance(f, ast.Attribute):
+            r = method_call(tr, e)
+            if r is not None:
+                return r
+        if e.keywords:
+            raise Unsupported(f'`{tr.inst.qual}`: keyword arguments in `{ast.unparse(e)[:80]}`')
         return None
+
+    def const_key(node, allowed):
+        return isinstance(node, ast.Constant) and node.value in allowed
+
+    def kw_of_call(tr, e):
+        """the `Kw` record a call hands to a `**kwargs` parameter: `k=…`, `include_bbox=…`, `**kwargs`"""
+        if not e.keywords:
+            return '({} : Kw)'
+        if len(e.keywords) == 1 and e.keywords[0].arg is None:
+            v = tr.expr(e.keywords[0].value)
+            if v.typ != 'GjKw':
+                raise Unsupported(f'`**` of {v.typ} in a call')
+            return v.text
+        fields = {}
+        for k in e.keywords:                     # evaluated left to right
+            if k.arg == 'k':
+                v = tr.expr(k.value)
+                if v.typ not in ('Opt Nat', 'None'):
+                    raise Unsupported(f'k= of type {v.typ}')
+                fields['k'] = v.text if v.typ == 'Opt Nat' else 'none'
+            elif k.arg == 'include_bbox':
+                v = tr.expr(k.value)
+                fields['bbox'] = 'false' if v.typ == 'None' else tr.truth(v)
+            else:
+                raise Unsupported(f'`{tr.inst.qual}`: keyword `{k.arg}` in `{ast.unparse(e)[:80]}`')
+        return '({ ' + ', '.join(f'{n} := {t}' for n, t in fields.items()) + ' } : Kw)'
+
+    def method_call(tr, e):
+        f = e.func
+        if not isinstance(f.value, (ast.Name, ast.Attribute)):
+            return None
+        try:
+            recv = tr.expr(f.value)
+        except Unsupported:
+            return None
+        t, m = recv.typ, f.attr
+        name = f.value.id if isinstance(f.value, ast.Name) else None
+        if t == 'GjKw' and not e.keywords:
+            # the keyword dictionary of an exporter
+            if m == 'get' and len(e.args) == 1 and const_key(e.args[0], ('k',)):
+                return Val(f'{recv.text}.k', 'Opt Nat')
+            if m == 'get' and len(e.args) == 1 and const_key(e.args[0], ('include_bbox',)):
+                return Val(f'{recv.text}.bbox', 'Bool')
+            if m == 'pop' and len(e.args) == 2 and const_key(e.args[1], (None,)) and name and const_key(e.args[0], ('k', 'include_bbox')):
+                fld = 'k' if e.args[0].value == 'k' else 'bbox'
+                tr.env[name] = Val(f'({{ {recv.text} with {fld} := {"none" if fld == "k" else "false"} }} : Kw)', 'GjKw', path=name)
+                return Val(f'{recv.text}.{fld}', 'Opt Nat' if fld == 'k' else 'Bool')
+            raise Unsupported(f'`{tr.inst.qual}`: `{ast.unparse(e)[:80]}` on the keyword dictionary')
+        if t == 'JObj' and not e.keywords:
+            if m == 'copy' and not e.args:
+                r = Val(recv.text, 'JObj')
+                r.fresh_dict = True
+                return r
+            if m == 'pop' and len(e.args) == 2 and const_key(e.args[1], (None,)) and name and name in tr.inst.state:
+                key = tr.expr(e.args[0])
+                if key.typ != 'Str':
+                    raise Unsupported(f'dict pop with a key of type {key.typ}')
+                tr.env[name] = Val(f'(GV.GeoJson.oerase {recv.text} {key.text})', 'JObj', path=name)
+                return Val(f'((GV.GeoJson.oget {recv.text} {key.text}).getD GV.GeoJson.J.null)', 'J')      # `None` is JSON null
+            raise Unsupported(f'`{tr.inst.qual}`: `{ast.unparse(e)[:80]}` on a dict')
+        if t == 'HoleSrc' and m == 'bounding_coords' and not e.args:
+            kw = kw_of_call(tr, e)
+            return Val(f'({recv.text}.bounding {kw}.k)', 'List Pos')
+        if t == 'GjCurved' and m == 'bounding_coords' and not e.args:
+            kw = kw_of_call(tr, e)
+            return Val(f'({recv.text}.bounding {kw}.k)', 'List Pos')
+        if t == 'GjRing' and m == '_draw_bounds' and not e.args:
+            kw = kw_of_call(tr, e)
+            return Val(f'({recv.text}.outer {kw}.k, {recv.text}.inner {kw}.k)', 'Prod (List Pos) (List Pos)')
+        if t == 'GjPolyM' and m == 'linear_rings' and not e.args:
+            r = Val(f'({recv.text}.linearRings {kw_of_call(tr, e)})', RINGS)
+            r.raises = True
+            return r
+        if t == 'GjShape' and m == 'to_geo_interface' and not e.args:
+            r = Val(f'({recv.text}.geoInterface {kw_of_call(tr, e)})', 'JObj')
+            r.raises = True
+            return r
+        inst = METHODS.get((t, m))
+        if inst is not None:
+            args = [tr.expr(a) for a in e.args]
+            if [a.typ for a in args] != [pt for _n, pt in inst.params[1:]]:
+                raise Unsupported(f'`{inst.qual}` applied to ({", ".join(a.typ for a in args)})')
+            if e.keywords and not inst.kw:
+                raise Unsupported(f'`{inst.qual}` takes no keyword arguments here')
+            ctx = [n for n, _t in tr.u.ctx_params]
+            parts = [inst.lean] + ctx + [_paren(a.text) for a in [recv] + args] + ([kw_of_call(tr, e)] if inst.kw else [])
+            v = Val('(' + ' '.join(parts) + ')', inst.value_type)
+            v.raises = inst.raises
+            return v
+        if t in RECEIVERS or t in ('GjKw', 'JObj', 'HoleSrc', 'GjPolyM', 'Pos'):
+            raise Unsupported(f'`{tr.inst.qual}`: method `.{m}` of {t}')
+        return None
+
+    def as_dict(tr, d):
+        if d.typ == 'GjKw':
+            return Val(f'(Kw.rest {d.text})', 'JObj')
+        return None
+
+    PINNED_BOUNDS = {'GjPolygon': '(GV.GeoJson.bboxPos {}.outline)', 'GjLine': '(GV.GeoJson.bboxPos {}.vertices)',
+                     'GjCurved': '{}.bounds', 'GjRing': '{}.bounds', 'GjMPoly': '{}.bounds', 'GjMLine': '{}.bounds', 'GjMPoint': '{}.bounds'}
+
+    def expr_hook(tr, e):
+        # `self.bounds` of the shapes whose `bounds` is pinned / abstract (may raise ValueError on an empty vertex list)
+        if isinstance(e, ast.Attribute) and e.attr == 'bounds' and isinstance(e.value, ast.Name) and e.value.id in tr.env \
+                and tr.env[e.value.id].typ in PINNED_BOUNDS:
+            recv = tr.env[e.value.id]
+            r = Val(PINNED_BOUNDS[recv.typ].format(recv.text), B4)
+            r.raises = True
+            return r
+        return None
+
+    def sanitize(tr, args):
+        if [a.typ for a in args] != ['JObj']:
+            raise Unsupported('sanitize_json(' + ', '.join(a.typ for a in args) + ')')
+        return Val(f'(GV.GeoJson.sanKvs rt {args[0].text})', 'JObj')
+
+    def fromiso(tr, args):
+        if [a.typ for a in args] != ['J']:
+            raise Unsupported('datetime.fromisoformat(' + ', '.join(a.typ for a in args) + ')')
+        s_ = tr.gensym('s')
+        r = Val(f'(match {args[0].text} with | GV.GeoJson.J.str {s_} => rt.parse {s_} | _ => Except.error "ERR:Type")', 'Dt')
+        r.raises = True                      # ValueError on malformed text (the runtime's), TypeError on a non-string
+        return r
+
+    def local_fn(qual, name):
+        return {('get_dt_from_geojson_props', '_convert'): ([('dt', 'J'), ('_format', 'None')], 'Except Opt Dt')}.get((qual, name))
 
     def init_hook(tr, fields):
         if tr.inst.qual == 'GeoPolygon.__init__':
@@ -229,11 +421,29 @@ def unit():
         raise Unsupported(f'`{tr.inst.qual}`: constructor without a record hook')
 
     attr = {('Pos', 'longitude'): ('{}.lon', 'R'), ('Pos', 'latitude'): ('{}.lat', 'R'), ('Pos', 'z'): ('{}.z', 'Opt R'),
-            ('Pos', 'm'): ('()', 'None')}
-    pins = {}
-    hooks = {'isinstance': lambda typ: None, 'eq': eq_hook, 'truth': truth_hook, 'coerce': coerce_hook, 'to_j': to_j,
-             'expr_stmt': expr_stmt, 'keywords': keywords_hook, 'call': call_hook, 'init': init_hook,
-             'always_truthy': ('TI', 'Dt')}
+            ('Pos', 'm'): ('()', 'None'),
+            ('GjPolygon', 'outline'): ('{}.outline', 'List Pos'), ('GjBox', 'nw_bound'): ('{}.nw', 'Pos'), ('GjBox', 'se_bound'): ('{}.se', 'Pos'),
+            ('GjRing', 'angle_min'): ('{}.amin', 'R'), ('GjRing', 'angle_max'): ('{}.amax', 'R'),
+            ('GjLine', 'vertices'): ('{}.vertices', 'List Pos'), ('GjPoint', 'coordinate'): ('{}.coordinate', 'Pos'),
+            ('GjMPoly', 'geoshapes'): ('{}.geoshapes', 'List GjPolyM'), ('GjMLine', 'geoshapes'): ('{}.geoshapes', 'List GjLine'),
+            ('GjMPoint', 'geoshapes'): ('{}.geoshapes', 'List GjPoint'),
+            ('GjShape', 'dt'): ('{}.dt', 'Opt TI'), ('GjShape', '_properties'): ('{}.props', 'JObj'),
+            ('TI', 'start'): ('{}.start', 'Dt'), ('TI', 'end'): ('{}.stop', 'Dt')}
+    for t in ('GjPolygon', 'GjBox', 'GjCurved', 'GjRing'):
+        attr[(t, 'holes')] = ('{}.holes', 'List HoleSrc')
+    classes = {'Pos': 'Coordinate', 'GjPolygon': 'GeoPolygon', 'GjBox': 'GeoBox', 'GjRing': 'GeoRing', 'GjLine': 'GeoLineString',
+               'GjPoint': 'GeoPoint', 'GjMPoly': 'MultiGeoPolygon', 'GjMLine': 'MultiGeoLineString', 'GjMPoint': 'MultiGeoPoint',
+               'GjShape': 'BaseShapeProtocol', 'TI': 'TimeInterval'}
+    P = dict(srcunits.PINS)
+    P.update(PINS)
+    pins = {k: P[k] for k in ('structures.py::GeoPolygon.bounds', 'structures.py::GeoLineString.bounds', 'structures.py::GeoRing.bounds',
+                              '_base.py::MultiShapeBase.bounds', 'utils/functions.py::sanitize_json', '_base.py::BaseShape.__init__',
+                              'structures.py::PolygonBase.__init__')}
+    hooks = {'isinstance': lambda typ: {'Pos': {'Coordinate'}}.get(typ), 'eq': eq_hook, 'truth': truth_hook, 'coerce': coerce_hook, 'to_j': to_j,
+             'expr_stmt': expr_stmt, 'keywords': lambda tr, e: True, 'call': call_hook, 'init': init_hook, 'as_dict': as_dict,
+             'expr': expr_hook, 'local_fn': local_fn, 'always_truthy': ('TI', 'Dt')}
     return Unit('SrcGeoJson', src, 'GV.Src.GeoJson',
                 ['GeoVerif.Model.GeoJson', 'GeoVerif.Model.PyPrelude', 'GeoVerif.Gen.SrcTime'], insts,
-                {}, pins=pins, header=HEADER, attr_types=attr, hooks=hooks, externals=srcunits._time_externals())
+                classes, pins=pins, header=HEADER, attr_types=attr, hooks=hooks, externals=srcunits._time_externals(),
+                intrinsics={'sanitize_json': sanitize, 'datetime.fromisoformat': fromiso},
+                ctx_params=[('rt', 'GV.GeoJson.Rt')])
